@@ -146,6 +146,7 @@ static bool query_all(const QCtx& x, Cell* cell, const Cell* model_cell, bool fu
         for (int fi = 0; fi < 4; fi++) {
             const Filt& f = FILTS[fi];
             if (full_only && fi > 1) continue;
+            if (depth == -3 && fi != 0) continue;   // the second negative depth only without a tag filter
             for (int ar = 0; ar < 2; ar++) {
                 JFields qt = {{"apply_repetitions", jbool(ar)}, {"depth", jint(depth)}, {"filter", jstr(f.name)}};
                 Denot d;
@@ -353,7 +354,7 @@ int main(int argc, char** argv) {
     }
     auto body = [&](int64_t i) { run_case(cases[i]); };
     bool ok = parallel_for(run, (int64_t)cases.size(), body, [&](int64_t i) { return case_json(cases[i]); }, [&](int64_t i) { return case_replay(cases[i]); }, PFOptions{60, "hier.crash", true});
-    run.sample("hier", jobj({{"hierarchy", case_json(cases[cases.size() / 3])}, {"queries", jstr("get_polygons/get_flexpaths/get_robustpaths/get_labels x apply_repetitions x include_paths x depth {0,1,2,-1,-3} x filter {none,present,absent,label tag} on TOP and MID; flatten(F/T) of TOP or MID; deep copy + mutate")}}));
+    run.sample("hier", jobj({{"hierarchy", case_json(cases[cases.size() / 3])}, {"queries", jstr("get_polygons/get_flexpaths/get_robustpaths/get_labels x apply_repetitions x include_paths x depth {0,1,2,-1 (and -3 unfiltered)} x filter {none,present,absent,label tag} on TOP and MID; flatten(F/T) of TOP or MID; deep copy + mutate")}}));
     run.bound("hier", fmt("%zu leaf contents x %zu reference placements per level (%zu hierarchies)", sizeof(leaves) / sizeof(int), specs.size(), cases.size()), ok, (int64_t)cases.size());
 
     // histories on a reduced set
